@@ -161,7 +161,10 @@ class World:
             self.count += 1
             if self.count > BUDGET:
                 raise Budget()
-            return _o(x)
+            r = _o(x)
+            if getattr(r, "size", 0) > 5000 or (isinstance(r, str) and len(r) > 5000):
+                raise Budget()      # a value that grows without bound: treated like an orbit that never ends
+            return r
         k.eval = counted
 
     def reset(self):
